@@ -16,6 +16,7 @@ func execCtxOp(w *World, op *Op, z *decimal.Decimal, res *Result) {
 	put := func(d *decimal.Decimal) {
 		if d == nil {
 			res.Failed = true
+			res.NilRes = true
 			res.Ret = "nil"
 			return
 		}
